@@ -103,15 +103,16 @@ def stateful_sweep(run, pid, prefixes, escalate):
     # (linear model?, editing threshold, symbols declared with sympy assumptions?)
     # (linear model?, editing threshold, symbols with sympy assumptions?, scale of prior and sensor noise)
     # (linear model?, editing threshold, symbols with sympy assumptions?, scale of prior and sensor noise, |.| terms on plain symbols?)
-    variants = [(True, 3.0, False, None, False), (False, 3.0, True, None, False), (False, None, False, 1e-12, False), (False, 3.0, False, None, True)] + ([(True, None, True, None, False), (False, 0.5, False, None, False), (False, 3.0, False, 1e-9, False), (False, None, False, 1e-9, False), (False, None, False, None, True)] if escalate else [])
+    # (linear model?, editing threshold, symbols with sympy assumptions?, scale of prior and noises, |.| terms on plain symbols?, redundant entries?)
+    variants = [(True, 3.0, False, None, False, False), (False, 3.0, True, None, False, False), (False, None, False, 1e-12, False, False), (False, 3.0, False, None, True, False), (False, 3.0, False, None, False, True)] + ([(True, None, True, None, False, False), (False, 0.5, False, None, False, False), (False, 3.0, False, 1e-9, False, False), (False, None, False, 1e-9, False, False), (False, None, False, None, True, False), (True, None, False, None, False, True)] if escalate else [])
     fails = 0
-    for linear, k_edit, assume, scale, magnitude in variants:
+    for linear, k_edit, assume, scale, magnitude, redundant in variants:
         run.native_runs += 1
-        problems, sc = kalman.native_sequence(run.seed, linear=linear, k_edit=k_edit, assumptions=assume, scale=scale, magnitude=magnitude)
+        problems, sc = kalman.native_sequence(run.seed, linear=linear, k_edit=k_edit, assumptions=assume, scale=scale, magnitude=magnitude, redundant=redundant)
         mine = [p for p in problems if p.startswith(tuple(prefixes)) or p.startswith(("constructing", "sequence raised"))]
         if mine:
             fails += 1
-            run.findings.append(Finding(f"{pid}.py.native_sequence", "stateful", f"one filter instance, {'linear' if linear else 'generic'} model{' with real/positive symbols' if assume else ''}{' with |v| terms on symbols without assumptions' if magnitude else ''}, editing threshold {k_edit}{f', prior and sensor noise scaled by {scale}' if scale else ''}: {mine[0]}", {"language": "python", "inputs": {"sequence": True, "seed": run.seed, "linear": linear, "k_edit": k_edit, "assumptions": assume, "scale": scale, "magnitude": magnitude}, "model_definition": sc.describe(), "oracle_verdict": mine[:6]}, True))
+            run.findings.append(Finding(f"{pid}.py.native_sequence", "stateful", f"one filter instance, {'linear' if linear else 'generic'} model{' with real/positive symbols' if assume else ''}{' with |v| terms on symbols without assumptions' if magnitude else ''}{' with two identical readings and two identical state updates' if redundant else ''}, editing threshold {k_edit}{f', prior and noises scaled by {scale}' if scale else ''}: {mine[0]}", {"language": "python", "inputs": {"sequence": True, "seed": run.seed, "linear": linear, "k_edit": k_edit, "assumptions": assume, "scale": scale, "magnitude": magnitude, "redundant": redundant}, "model_definition": sc.describe(), "oracle_verdict": mine[:6]}, True))
             break
     run.bounded.append({"what": "stateful native sequence on ONE filter instance (two sensors of different reading dimension): Jacobians at three points with different dt, predictions at dt in {dt, 0, dt/2, 2^-40, -dt, -dt/4}, a chain of three predictions fed back into each other (inputs and earlier outputs must not change), six alternating near/far sensor updates; each result against the exact oracle at its own inputs", "bound": f"{len(variants)} sequences (linear and generic models)", "failures": fails, "counted_as_proved": False})
     return fails
@@ -142,6 +143,6 @@ def replay_dtypes(inp):
 def replay_sequence(inp):
     from replay import kalman
 
-    problems, sc = kalman.native_sequence(inp.get("seed", 0), linear=inp.get("linear", False), k_edit=inp.get("k_edit"), assumptions=inp.get("assumptions", False), scale=inp.get("scale"), magnitude=inp.get("magnitude", False))
+    problems, sc = kalman.native_sequence(inp.get("seed", 0), linear=inp.get("linear", False), k_edit=inp.get("k_edit"), assumptions=inp.get("assumptions", False), scale=inp.get("scale"), magnitude=inp.get("magnitude", False), redundant=inp.get("redundant", False))
     print("replay stateful sequence:", problems[:4] or "every call agrees with the oracle")
     return not problems
